@@ -11,7 +11,7 @@ K_Two == {"num", "expr"}
 (* algebra *)
 L_None == {}
 CL_Q == {0, 2}
-RI_Q == {0, 1, -1}
+RI_Q == {0, 1}
 CL_T == {0, 1, 2, -3}
 RI_T == {0, 1, 2, -1}
 CL_4 == {0, 2}
@@ -86,7 +86,7 @@ GridDef == [
   FitEyring |-> { PS([a |-> <<25, 1, 0>>, B |-> <<8000, 1, 0>>], NoEnv, NoEnv), PS([a |-> <<18, 1, 0>>, B |-> <<1200, 1, 0>>], NoEnv, NoEnv) },
   LeastSquares |-> { PS([b0 |-> <<3, 2, 0>>, b1 |-> <<-7, 4, 0>>], NoEnv, NoEnv), PS([b0 |-> <<0, 1, 0>>, b1 |-> <<1, 3, 0>>], NoEnv, NoEnv) }
 ]
-TempsQ == { <<200, 1, 0>>, <<5963, 20, 0>>, <<2000, 1, 0>> }
+TempsQ == { <<5963, 20, 0>>, <<2000, 1, 0>> }
 TempsT == { <<200, 1, 0>>, <<5963, 20, 0>>, <<500, 1, 0>>, <<1000, 1, 0>>, <<2000, 1, 0>> }
 LC_All == AllLawClasses
 M_All == AllModes
